@@ -20,6 +20,10 @@ def run(cx):
     rest(cx)
     window_limited_still_syncs(cx, "C11.f")
     resync_acceptance(cx, "C11.g")
+    # no loss pattern stalls a connection: the retransmission back-off is capped, so a fragment lost many times in a
+    # row is offered again a bounded time after frames flow again
+    from props.shared import resend_schedule
+    resend_schedule(cx, "C11.w")
     from props.shared import ack_processing_presence, dispatch_table
     ack_processing_presence(cx, "C11.h")
     dispatch_table(cx, "C11.i", only={"DataFrame", "SyncFrame", "AckFrame"})
